@@ -308,6 +308,7 @@ func (tr *FnTr) unop(x *ssa.UnOp) {
 func (tr *FnTr) indexAddr(x *ssa.IndexAddr) {
 	base := tr.val(x.X)
 	idx := tr.val(x.Index).L[0]
+	tr.noteIndex(idx)
 	switch t := x.X.Type().Underlying().(type) {
 	case *types.Slice:
 		tr.check("index", And(Le(Int(0), idx), Lt(idx, base.L[2])), x.Pos())
@@ -327,6 +328,7 @@ func (tr *FnTr) indexAddr(x *ssa.IndexAddr) {
 func (tr *FnTr) index(x *ssa.Index) {
 	base := tr.val(x.X)
 	idx := tr.val(x.Index).L[0]
+	tr.noteIndex(idx)
 	switch t := x.X.Type().Underlying().(type) {
 	case *types.Array:
 		tr.check("index", And(Le(Int(0), idx), Lt(idx, Int(t.Len()))), x.Pos())
@@ -509,6 +511,10 @@ func (tr *FnTr) copyBits(from, to *Term, fb, tb *types.Basic) {
 	fbits, fs := intBits(fb)
 	tbits, _ := intBits(tb)
 	if fs {
+		// trailing zeros survive any width change of a two's complement value
+		if k, ok := tr.eng.bits[from.Key()]; ok && k.tz > 0 {
+			tr.eng.bits[to.Key()] = kb{64, k.tz}
+		}
 		return
 	}
 	k := tr.kbOf(from, fb)
@@ -685,7 +691,9 @@ func (tr *FnTr) arith(op token.Token, a, b *Term, bt *types.Basic, p token.Pos) 
 		return tr.bitUF("bandnot", a, b, bt)
 	case token.OR:
 		ka, kbb := tr.kbOf(a, bt), tr.kbOf(b, bt)
-		if !signed && (ka.hi <= kbb.tz || kbb.hi <= ka.tz) {
+		// x|y == x+y when the set bits cannot overlap; for a signed x this still holds if y
+		// is a non-negative value that fits below x's trailing zeros
+		if (!signed && (ka.hi <= kbb.tz || kbb.hi <= ka.tz)) || (signed && ((kbb.hi <= ka.tz && kbb.hi < 64) || (ka.hi <= kbb.tz && ka.hi < 64))) {
 			r := Add(a, b)
 			hi := ka.hi
 			if kbb.hi > hi {
@@ -827,6 +835,8 @@ func (tr *FnTr) shift(op token.Token, a, s *Term, bt, st *types.Basic, p token.P
 			r2 := tr.finish(r, bt, p, true)
 			if !signed {
 				tr.eng.bits[r2.Key()] = kb{bits, k}
+			} else {
+				tr.eng.bits[r2.Key()] = kb{64, k}
 			}
 			return r2
 		}
